@@ -332,9 +332,10 @@ class Ceremony:
         elif who == 'external':
             ext = list(range(self.n))
             j = ext[ch.index('ext_j', len(ext))]
-            w.op('sign', cid=c.cid, by='cosigner%d' % j)
+            rep = self.focus == 'C02' and ch.coin('replace_signatures', 0.25)
+            w.op('sign', cid=c.cid, by='cosigner%d' % j, **({'replace_signatures': True} if rep else {}))
             hk = self.BK.HDKey(self.xprv(self.masters[j]), network=self.network)
-            ok, _ = self.call('sign_ext', lambda: c.t.sign(hk))
+            ok, _ = self.call('sign_ext', lambda: c.t.sign(hk, **({'replace_signatures': True} if rep else {})))
             if ok:
                 c.signers.add(j)
                 self.add_holder(c)
